@@ -28,15 +28,10 @@ def gen_C01(tier, seed, unit, nunits):
             out.append(req('h_mul_overflow', s, n, f, a, b))
         for a, b in G.div_pairs(rng, s, n, f, E, k) + [(a, b) for a in C for b in C]:
             out.append(req('h_div_overflow', s, n, f, a, b))
-        if n == 8 and tier != 'quick':
+        if n == 8:
+            # EXHAUSTIVE in both tiers: every operand pair of every 8-bit layout through both helpers (18 layouts x 65 536 pairs x 2; a few seconds)
             lo, hi = G.rng_range(s, n)
             for a in range(lo, hi + 1):
-                for b in range(lo, hi + 1):
-                    out.append(req('h_mul_overflow', s, n, f, a, b))
-                    out.append(req('h_div_overflow', s, n, f, a, b))
-        if n == 8 and tier == 'quick':
-            lo, hi = G.rng_range(s, n)
-            for a in E:
                 for b in range(lo, hi + 1):
                     out.append(req('h_mul_overflow', s, n, f, a, b))
                     out.append(req('h_div_overflow', s, n, f, a, b))
@@ -711,7 +706,8 @@ def gen_C02x(tier, seed, unit, nunits):
     return out
 
 PROPS = {
-    'C01': dict(lean_modules=['SfxProps.C01'], bins=['arith'], profiles=['chk', 'rel'], gen=gen_C01, thorough_all_fracs=True),
+    'C01': dict(lean_modules=['SfxProps.C01'], bins=['arith'], profiles=['chk', 'rel'], gen=gen_C01, thorough_all_fracs=True,
+                exhaustive_parts=['mul_overflow / div_overflow helpers: every operand pair of every 8-bit layout (18 x 65 536), both tiers, both profiles']),
     'C06': dict(lean_modules=['SfxProps.C06'], bins=['arith'], profiles=['chk', 'rel'], gen=gen_C06, thorough_all_fracs=True),
     'C07': dict(lean_modules=['SfxProps.C07', 'SfxProps.C07Forms'], bins=['arith'], profiles=['chk', 'rel'], gen=gen_C07x, thorough_all_fracs=True),
     'XBITS': dict(lean_modules=['SfxProps.C11Bits'], bins=['arith'], profiles=['chk', 'rel'], gen=gen_XBITS),   # not a property: a part of C11's corpus
@@ -724,7 +720,9 @@ PROPS = {
                 assumptions=['serde: exercised through serde_json 1.0.151 / serde_cbor 0.11.2 with default features only; little-endian target for *_ne_bytes']),
     'C03': dict(lean_modules=['SfxProps.C03', 'SfxProps.C03Half'], bins=['conv'], profiles=['rel'], gen=gen_C03x),
     'C04': dict(lean_modules=['SfxProps.C04', 'SfxProps.C04Prim', 'SfxProps.C04Cast'], bins=['conv', 'cast'], profiles=['chk', 'rel'], gen=gen_C04x),
-    'C05': dict(lean_modules=['SfxProps.C05', 'SfxProps.C05Half', 'SfxProps.C04Cast'], bins=['conv', 'cast'], profiles=['chk', 'rel'], gen=gen_C05x),
+    'C05': dict(lean_modules=['SfxProps.C05', 'SfxProps.C05Half', 'SfxProps.C04Cast'], bins=['conv', 'cast'], profiles=['chk', 'rel'], gen=gen_C05x,
+                exhaustive_parts=['to_float_kind for half::f16 and half::bf16: all 65 536 bit patterns x 10 (width, frac) pairs in quick, x all 253 pairs in thorough',
+                                  'checked_from_num(f16|bf16): all 65 536 patterns on I1F7 and U8F8 in quick, on every typed layout in thorough']),
     'C12': dict(lean_modules=['SfxProps.C12', 'SfxProps.C12Tan', 'SfxProps.C12Pairs'], bins=['math'], profiles=['chk', 'rel'], gen=gen_C12),
     'C13': dict(lean_modules=['SfxProps.C13', 'SfxProps.C13Real'], bins=['math'], profiles=['rel'], gen=gen_C13, oracle=True),
     'C14': dict(lean_modules=['SfxProps.C14'], bins=['math'], profiles=['rel'], gen=gen_C14, oracle=True),
